@@ -122,6 +122,31 @@ def conv_checks(st_):
                         add(st_, 'get_port', f'from_network(port={port}).get_port() = {ts.get_port()}',
                             {'kind': 'conv', 'net': str(net), 'port': port, 'proto': proto})
                     st_.nontrivial.add(common.jhash(['conv', v, plen, port, proto]))
+    # arbitrary (not CIDR-aligned) ranges, as a peer may propose them: the kernel selector is the smallest covering network
+    import random as _r
+    rnd = _r.Random(12)
+    for v, bits, tt in ((4, 32, 7), (6, 128, 8)):
+        mk = ipaddress.IPv4Address if v == 4 else ipaddress.IPv6Address
+        mkn = ipaddress.IPv4Network if v == 4 else ipaddress.IPv6Network
+        for i in range(600):
+            a = rnd.getrandbits(bits)
+            span = rnd.choice([0, 1, 2, 3, 5, 6, 7, 9, 255, 256, 257, 65535, 65537]) if i % 3 else rnd.getrandbits(rnd.randint(1, bits - 1))
+            b = min(a + span, (1 << bits) - 1)
+            if i % 7 == 0:      # straddle a power-of-two boundary
+                a = (a | ((1 << rnd.randint(1, bits - 2)) - 1))
+                b = min(a + 1, (1 << bits) - 1)
+            k += 1
+            ts = TS(tt, 0, 0, 65535, mk(a), mk(b))
+            got = ts.get_network()
+            plen = bits
+            while plen > 0 and (a >> (bits - plen)) != (b >> (bits - plen)):
+                plen -= 1
+            want = mkn(((a >> (bits - plen)) << (bits - plen) if plen else 0, plen))
+            if got != want:
+                kind_ = 'misses-part-of-range' if not (mk(a) in got and mk(b) in got) else 'not-minimal'
+                add(st_, 'get_network-range:' + kind_, f'get_network() of the range {mk(a)} - {mk(b)} = {got}; the smallest network '
+                                                     f'containing it is {want}', {'kind': 'conv', 'net': str(want), 'port': 0, 'proto': 0})
+            st_.nontrivial.add(common.jhash(['range', v, a, b]))
     st_.evals += k
     st_.classes['fn:conversions'] += k
 
